@@ -1,7 +1,881 @@
-//! C16 — not built yet.
-use vcore::Ctx;
+//! C16 — serde values convert to GraphQL values and back without loss.
+//!
+//! A fixed family of serde types (one per data-model shape, generic so that they compose) is instantiated
+//! into concrete top-level types of nesting depth 4 plus one `Box`-recursive type; values are generated
+//! from the choice source and `from_value::<T>(to_value(&v)?)? == v` is demanded.
+use async_graphql_value::{from_value, to_value, ConstValue};
+use bytes::Bytes;
+use serde::de::DeserializeOwned;
+use serde::{Deserialize, Serialize};
+use std::collections::{BTreeMap, HashMap};
+use std::fmt::Debug;
+use std::hash::BuildHasherDefault;
+use std::sync::atomic::{AtomicBool, Ordering};
+use vcore::gens::*;
+use vcore::{Case, Ctx, Src};
 
-pub fn run(_ctx: &mut Ctx) {
-    eprintln!("C16: check not built yet");
-    std::process::exit(2);
+/// HashMap with a fixed hasher: the rendering of a case must not depend on per-process hash keys.
+type HMap<T> = HashMap<String, T, BuildHasherDefault<std::collections::hash_map::DefaultHasher>>;
+
+const F1: &str = "C16-F1";
+/// generator switch: may `En::E()` (a tuple variant without fields) be generated?
+static ALLOW_EMPTY_TUPLE_VARIANT: AtomicBool = AtomicBool::new(false);
+/// is finding C16-F1 listed as open (then its exact deviation is attributed, not reported)?
+static F1_OPEN: AtomicBool = AtomicBool::new(false);
+/// C16-F1: `{E: []}` reaches the tuple-variant visitor as a unit value
+const F1_MESSAGE: &str = "invalid type: unit value, expected tuple variant En::E";
+
+/// Features of a generated value (for the non-triviality rule and the class histogram).
+#[derive(Default)]
+struct Feat {
+    /// deepest nesting level at which an enum variant with payload or a map occurs
+    payload_or_map_depth: Option<usize>,
+    max_depth: usize,
+    unit_variant: bool,
+    newtype_variant: bool,
+    tuple_variant: bool,
+    struct_variant: bool,
+    map: bool,
+    some: bool,
+    none: bool,
+    bytes: bool,
+    float: bool,
+    neg_zero: bool,
+    big_u64: bool,
+    empty_seq: bool,
+    unit: bool,
+    empty_tuple_variant: bool,
+}
+impl Feat {
+    fn at(&mut self, d: usize) {
+        self.max_depth = self.max_depth.max(d);
+    }
+    fn payload(&mut self, d: usize) {
+        self.payload_or_map_depth = Some(self.payload_or_map_depth.map_or(d, |x| x.max(d)));
+    }
+}
+
+/// Generation and feature walk. `size` bounds collection lengths and recursion (it is halved on the way down).
+trait Arb: Sized {
+    fn arb(s: &mut dyn Src, size: usize) -> Self;
+    fn feat(&self, d: usize, f: &mut Feat);
+}
+
+macro_rules! arb_int {
+    ($($t:ty)*) => {$(
+        impl Arb for $t {
+            fn arb(s: &mut dyn Src, _size: usize) -> Self {
+                match s.choose(4) {
+                    0 => s.range(0, 3) as $t,
+                    1 => *pick(s, &[<$t>::MIN, <$t>::MAX, <$t>::MAX - 1, (<$t>::MAX / 2) + 1, 1 as $t]),
+                    2 => gen_i64(s) as $t,
+                    _ => s.u64() as $t,
+                }
+            }
+            fn feat(&self, d: usize, f: &mut Feat) {
+                f.at(d);
+                if (*self as i128) > i64::MAX as i128 {
+                    f.big_u64 = true;
+                }
+            }
+        }
+    )*};
+}
+arb_int! { i8 i16 i32 i64 isize u8 u16 u32 u64 usize }
+
+impl Arb for bool {
+    fn arb(s: &mut dyn Src, _size: usize) -> Self {
+        s.bool()
+    }
+    fn feat(&self, d: usize, f: &mut Feat) {
+        f.at(d);
+    }
+}
+impl Arb for String {
+    fn arb(s: &mut dyn Src, _size: usize) -> Self {
+        gen_string(s, 6)
+    }
+    fn feat(&self, d: usize, f: &mut Feat) {
+        f.at(d);
+    }
+}
+impl Arb for () {
+    fn arb(_s: &mut dyn Src, _size: usize) -> Self {}
+    fn feat(&self, d: usize, f: &mut Feat) {
+        f.at(d);
+        f.unit = true;
+    }
+}
+impl Arb for Bytes {
+    fn arb(s: &mut dyn Src, _size: usize) -> Self {
+        let n = s.choose(6);
+        Bytes::from((0..n).map(|_| *pick(s, &[0u8, 1, 0x7f, 0x80, 0xff, b'a', b'"', b'\\'])).collect::<Vec<u8>>())
+    }
+    fn feat(&self, d: usize, f: &mut Feat) {
+        f.at(d);
+        f.bytes = true;
+    }
+}
+
+/// f64 / f32 compared by bit pattern (so that a lost sign of zero or a changed last bit is seen).
+#[derive(Serialize, Deserialize, Debug, Clone, Copy)]
+struct F64(f64);
+impl PartialEq for F64 {
+    fn eq(&self, o: &Self) -> bool {
+        self.0.to_bits() == o.0.to_bits()
+    }
+}
+#[derive(Serialize, Deserialize, Debug, Clone, Copy)]
+#[serde(transparent)]
+struct F32(f32);
+impl PartialEq for F32 {
+    fn eq(&self, o: &Self) -> bool {
+        self.0.to_bits() == o.0.to_bits()
+    }
+}
+impl Arb for F64 {
+    fn arb(s: &mut dyn Src, _size: usize) -> Self {
+        F64(gen_f64_finite(s))
+    }
+    fn feat(&self, d: usize, f: &mut Feat) {
+        f.at(d);
+        f.float = true;
+        f.neg_zero |= self.0 == 0.0 && self.0.is_sign_negative();
+    }
+}
+impl Arb for F32 {
+    fn arb(s: &mut dyn Src, _size: usize) -> Self {
+        F32(match s.choose(5) {
+            0 => 0.0,
+            1 => -0.0,
+            2 => s.range(-1000, 1000) as f32 / 8.0,
+            3 => *pick(s, &[f32::MAX, f32::MIN, f32::MIN_POSITIVE, f32::EPSILON, 1e-45, 0.1, 16777217.0, 3.4028235e38]),
+            _ => loop {
+                let v = f32::from_bits(s.raw());
+                if v.is_finite() {
+                    break v;
+                }
+            },
+        })
+    }
+    fn feat(&self, d: usize, f: &mut Feat) {
+        f.at(d);
+        f.float = true;
+        f.neg_zero |= self.0 == 0.0 && self.0.is_sign_negative();
+    }
+}
+
+/// `T` must never serialise to null (no `()`, unit struct or `Option` directly below an `Option`): the
+/// concrete instantiations below respect this.
+impl<T: Arb> Arb for Option<T> {
+    fn arb(s: &mut dyn Src, size: usize) -> Self {
+        if s.chance(2, 3) {
+            Some(T::arb(s, size))
+        } else {
+            None
+        }
+    }
+    fn feat(&self, d: usize, f: &mut Feat) {
+        f.at(d);
+        match self {
+            Some(x) => {
+                f.some = true;
+                x.feat(d, f)
+            }
+            None => f.none = true,
+        }
+    }
+}
+impl<T: Arb> Arb for Box<T> {
+    fn arb(s: &mut dyn Src, size: usize) -> Self {
+        Box::new(T::arb(s, size))
+    }
+    fn feat(&self, d: usize, f: &mut Feat) {
+        (**self).feat(d, f)
+    }
+}
+impl<T: Arb> Arb for Vec<T> {
+    fn arb(s: &mut dyn Src, size: usize) -> Self {
+        let n = s.choose(size.min(3) + 1);
+        (0..n).map(|_| T::arb(s, size / 2)).collect()
+    }
+    fn feat(&self, d: usize, f: &mut Feat) {
+        f.at(d);
+        f.empty_seq |= self.is_empty();
+        for x in self {
+            x.feat(d + 1, f);
+        }
+    }
+}
+impl<T: Arb> Arb for [T; 2] {
+    fn arb(s: &mut dyn Src, size: usize) -> Self {
+        [T::arb(s, size / 2), T::arb(s, size / 2)]
+    }
+    fn feat(&self, d: usize, f: &mut Feat) {
+        f.at(d);
+        for x in self {
+            x.feat(d + 1, f);
+        }
+    }
+}
+fn arb_key(s: &mut dyn Src) -> String {
+    // map keys are arbitrary strings (the statement only asks for *string* keys), mostly short names
+    if s.chance(1, 4) {
+        gen_string(s, 4)
+    } else {
+        gen_name(s, 4)
+    }
+}
+impl<T: Arb> Arb for BTreeMap<String, T> {
+    fn arb(s: &mut dyn Src, size: usize) -> Self {
+        let n = s.choose(size.min(3) + 1);
+        (0..n).map(|_| (arb_key(s), T::arb(s, size / 2))).collect()
+    }
+    fn feat(&self, d: usize, f: &mut Feat) {
+        f.at(d);
+        f.map = true;
+        f.payload(d);
+        for x in self.values() {
+            x.feat(d + 1, f);
+        }
+    }
+}
+impl<T: Arb> Arb for HMap<T> {
+    fn arb(s: &mut dyn Src, size: usize) -> Self {
+        let n = s.choose(size.min(3) + 1);
+        (0..n).map(|_| (arb_key(s), T::arb(s, size / 2))).collect()
+    }
+    fn feat(&self, d: usize, f: &mut Feat) {
+        f.at(d);
+        f.map = true;
+        f.payload(d);
+        for x in self.values() {
+            x.feat(d + 1, f);
+        }
+    }
+}
+impl<A: Arb> Arb for (A,) {
+    fn arb(s: &mut dyn Src, size: usize) -> Self {
+        (A::arb(s, size),)
+    }
+    fn feat(&self, d: usize, f: &mut Feat) {
+        f.at(d);
+        self.0.feat(d + 1, f);
+    }
+}
+impl<A: Arb, B: Arb> Arb for (A, B) {
+    fn arb(s: &mut dyn Src, size: usize) -> Self {
+        (A::arb(s, size), B::arb(s, size))
+    }
+    fn feat(&self, d: usize, f: &mut Feat) {
+        f.at(d);
+        self.0.feat(d + 1, f);
+        self.1.feat(d + 1, f);
+    }
+}
+impl<A: Arb, B: Arb, C: Arb> Arb for (A, B, C) {
+    fn arb(s: &mut dyn Src, size: usize) -> Self {
+        (A::arb(s, size), B::arb(s, size), C::arb(s, size))
+    }
+    fn feat(&self, d: usize, f: &mut Feat) {
+        f.at(d);
+        self.0.feat(d + 1, f);
+        self.1.feat(d + 1, f);
+        self.2.feat(d + 1, f);
+    }
+}
+
+impl<A: Arb, B: Arb, C: Arb, D: Arb> Arb for (A, B, C, D) {
+    fn arb(s: &mut dyn Src, size: usize) -> Self {
+        (A::arb(s, size), B::arb(s, size), C::arb(s, size), D::arb(s, size))
+    }
+    fn feat(&self, d: usize, f: &mut Feat) {
+        f.at(d);
+        self.0.feat(d + 1, f);
+        self.1.feat(d + 1, f);
+        self.2.feat(d + 1, f);
+        self.3.feat(d + 1, f);
+    }
+}
+
+// ---- the derived family: one type per data-model shape -------------------------------------------------
+
+/// unit struct
+#[derive(Serialize, Deserialize, PartialEq, Debug)]
+struct UnitS;
+impl Arb for UnitS {
+    fn arb(_s: &mut dyn Src, _size: usize) -> Self {
+        UnitS
+    }
+    fn feat(&self, d: usize, f: &mut Feat) {
+        f.at(d);
+        f.unit = true;
+    }
+}
+/// newtype struct
+#[derive(Serialize, Deserialize, PartialEq, Debug)]
+struct NewT<T>(T);
+impl<T: Arb> Arb for NewT<T> {
+    fn arb(s: &mut dyn Src, size: usize) -> Self {
+        NewT(T::arb(s, size))
+    }
+    fn feat(&self, d: usize, f: &mut Feat) {
+        self.0.feat(d, f)
+    }
+}
+/// tuple struct
+#[derive(Serialize, Deserialize, PartialEq, Debug)]
+struct TupS<A, B>(A, B, u8);
+impl<A: Arb, B: Arb> Arb for TupS<A, B> {
+    fn arb(s: &mut dyn Src, size: usize) -> Self {
+        TupS(A::arb(s, size), B::arb(s, size), u8::arb(s, size))
+    }
+    fn feat(&self, d: usize, f: &mut Feat) {
+        f.at(d);
+        self.0.feat(d + 1, f);
+        self.1.feat(d + 1, f);
+    }
+}
+/// struct with named fields, one of them a keyword-like / non-identifier-looking name
+#[derive(Serialize, Deserialize, PartialEq, Debug)]
+struct Rec<A, B> {
+    a: A,
+    #[serde(rename = "type")]
+    b: B,
+    flag: bool,
+}
+impl<A: Arb, B: Arb> Arb for Rec<A, B> {
+    fn arb(s: &mut dyn Src, size: usize) -> Self {
+        Rec { a: A::arb(s, size), b: B::arb(s, size), flag: s.bool() }
+    }
+    fn feat(&self, d: usize, f: &mut Feat) {
+        f.at(d);
+        self.a.feat(d + 1, f);
+        self.b.feat(d + 1, f);
+    }
+}
+/// all four variant forms
+#[derive(Serialize, Deserialize, PartialEq, Debug)]
+enum En<A, B> {
+    U,
+    N(A),
+    T(A, B),
+    S { x: A, y: B },
+    /// second unit variant, with a name that is not a GraphQL name
+    #[serde(rename = "other-unit")]
+    U2,
+    /// struct variant without fields
+    S0 {},
+    /// tuple variant without fields (generated only where the run allows it: finding C16-F1)
+    E(),
+}
+impl<A: Arb, B: Arb> Arb for En<A, B> {
+    fn arb(s: &mut dyn Src, size: usize) -> Self {
+        let empty_tuple = if ALLOW_EMPTY_TUPLE_VARIANT.load(Ordering::Relaxed) { 2 } else { 0 };
+        match s.weighted(&[2, 4, 4, 4, 1, 1, empty_tuple]) {
+            0 => En::U,
+            1 => En::N(A::arb(s, size)),
+            2 => En::T(A::arb(s, size), B::arb(s, size)),
+            3 => En::S { x: A::arb(s, size), y: B::arb(s, size) },
+            4 => En::U2,
+            5 => En::S0 {},
+            _ => En::E(),
+        }
+    }
+    fn feat(&self, d: usize, f: &mut Feat) {
+        f.at(d);
+        match self {
+            En::U | En::U2 => f.unit_variant = true,
+            En::S0 {} => f.struct_variant = true,
+            En::E() => f.empty_tuple_variant = true,
+            En::N(a) => {
+                f.newtype_variant = true;
+                f.payload(d);
+                a.feat(d + 1, f);
+            }
+            En::T(a, b) => {
+                f.tuple_variant = true;
+                f.payload(d);
+                a.feat(d + 1, f);
+                b.feat(d + 1, f);
+            }
+            En::S { x, y } => {
+                f.struct_variant = true;
+                f.payload(d);
+                x.feat(d + 1, f);
+                y.feat(d + 1, f);
+            }
+        }
+    }
+}
+/// every integer width up to 64 bits
+#[derive(Serialize, Deserialize, PartialEq, Debug)]
+struct Ints {
+    a: i8,
+    b: i16,
+    c: i32,
+    d: i64,
+    e: u8,
+    f: u16,
+    g: u32,
+    h: u64,
+    i: isize,
+    j: usize,
+}
+impl Arb for Ints {
+    fn arb(s: &mut dyn Src, z: usize) -> Self {
+        Ints {
+            a: Arb::arb(s, z),
+            b: Arb::arb(s, z),
+            c: Arb::arb(s, z),
+            d: Arb::arb(s, z),
+            e: Arb::arb(s, z),
+            f: Arb::arb(s, z),
+            g: Arb::arb(s, z),
+            h: Arb::arb(s, z),
+            i: Arb::arb(s, z),
+            j: Arb::arb(s, z),
+        }
+    }
+    fn feat(&self, d: usize, f: &mut Feat) {
+        f.at(d);
+        self.h.feat(d + 1, f);
+        self.j.feat(d + 1, f);
+    }
+}
+/// floats, bool, string, bytes, unit and unit struct as fields
+#[derive(Serialize, Deserialize, PartialEq, Debug)]
+struct Prims {
+    x: F64,
+    y: F32,
+    ok: bool,
+    s: String,
+    raw: Bytes,
+    unit: (),
+    us: UnitS,
+}
+impl Arb for Prims {
+    fn arb(s: &mut dyn Src, z: usize) -> Self {
+        Prims { x: Arb::arb(s, z), y: Arb::arb(s, z), ok: s.bool(), s: Arb::arb(s, z), raw: Arb::arb(s, z), unit: (), us: UnitS }
+    }
+    fn feat(&self, d: usize, f: &mut Feat) {
+        f.at(d);
+        self.x.feat(d + 1, f);
+        self.y.feat(d + 1, f);
+        self.raw.feat(d + 1, f);
+        self.us.feat(d + 1, f);
+    }
+}
+/// a scalar of any kind as a newtype variant payload (numbers of each sign class side by side)
+#[derive(Serialize, Deserialize, PartialEq, Debug)]
+enum Scalar {
+    Nothing,
+    I(i64),
+    U(u64),
+    F(F64),
+    G(F32),
+    B(bool),
+    S(String),
+    Raw(Bytes),
+    Small(i8, u8),
+}
+impl Arb for Scalar {
+    fn arb(s: &mut dyn Src, z: usize) -> Self {
+        match s.choose(9) {
+            0 => Scalar::Nothing,
+            1 => Scalar::I(Arb::arb(s, z)),
+            2 => Scalar::U(Arb::arb(s, z)),
+            3 => Scalar::F(Arb::arb(s, z)),
+            4 => Scalar::G(Arb::arb(s, z)),
+            5 => Scalar::B(s.bool()),
+            6 => Scalar::S(Arb::arb(s, z)),
+            7 => Scalar::Raw(Arb::arb(s, z)),
+            _ => Scalar::Small(Arb::arb(s, z), Arb::arb(s, z)),
+        }
+    }
+    fn feat(&self, d: usize, f: &mut Feat) {
+        f.at(d);
+        match self {
+            Scalar::Nothing => f.unit_variant = true,
+            Scalar::Small(..) => {
+                f.tuple_variant = true;
+                f.payload(d);
+                f.at(d + 1);
+            }
+            other => {
+                f.newtype_variant = true;
+                f.payload(d);
+                match other {
+                    Scalar::U(u) => u.feat(d + 1, f),
+                    Scalar::F(x) => x.feat(d + 1, f),
+                    Scalar::G(x) => x.feat(d + 1, f),
+                    Scalar::Raw(x) => x.feat(d + 1, f),
+                    _ => f.at(d + 1),
+                }
+            }
+        }
+    }
+}
+/// `Box`-recursive type: every shape may contain every other, depth bounded by the generator
+#[derive(Serialize, Deserialize, PartialEq, Debug)]
+enum Tree {
+    Leaf,
+    Val(Scalar),
+    Pair(Box<Tree>, Box<Tree>),
+    Node { left: Option<Box<Tree>>, items: Vec<Tree>, label: String },
+    Map(BTreeMap<String, Tree>),
+    Hash(HMap<Tree>),
+    Opt(Option<Box<Rec<Tree, Scalar>>>),
+    Tup(Box<(Tree, Scalar, NewT<Tree>)>),
+    Ts(Box<TupS<Tree, Option<Scalar>>>),
+}
+impl Arb for Tree {
+    fn arb(s: &mut dyn Src, z: usize) -> Self {
+        if z == 0 {
+            return if s.bool() { Tree::Val(Scalar::arb(s, 0)) } else { Tree::Leaf };
+        }
+        let z1 = z - 1;
+        match s.weighted(&[1, 3, 3, 3, 3, 2, 2, 2, 2]) {
+            0 => Tree::Leaf,
+            1 => Tree::Val(Scalar::arb(s, z1)),
+            2 => Tree::Pair(Box::new(Tree::arb(s, z1)), Box::new(Tree::arb(s, z1))),
+            3 => Tree::Node {
+                left: if s.bool() { Some(Box::new(Tree::arb(s, z1))) } else { None },
+                items: (0..s.choose(3)).map(|_| Tree::arb(s, z1)).collect(),
+                label: gen_string(s, 4),
+            },
+            4 => Tree::Map((0..s.choose(3)).map(|_| (arb_key(s), Tree::arb(s, z1))).collect()),
+            5 => Tree::Hash((0..s.choose(3)).map(|_| (arb_key(s), Tree::arb(s, z1))).collect()),
+            6 => Tree::Opt(if s.chance(3, 4) {
+                Some(Box::new(Rec { a: Tree::arb(s, z1), b: Scalar::arb(s, z1), flag: s.bool() }))
+            } else {
+                None
+            }),
+            7 => Tree::Tup(Box::new((Tree::arb(s, z1), Scalar::arb(s, z1), NewT(Tree::arb(s, z1))))),
+            _ => Tree::Ts(Box::new(TupS(Tree::arb(s, z1), Arb::arb(s, z1), Arb::arb(s, z1)))),
+        }
+    }
+    fn feat(&self, d: usize, f: &mut Feat) {
+        f.at(d);
+        match self {
+            Tree::Leaf => f.unit_variant = true,
+            Tree::Val(x) => {
+                f.newtype_variant = true;
+                f.payload(d);
+                x.feat(d + 1, f)
+            }
+            Tree::Pair(a, b) => {
+                f.tuple_variant = true;
+                f.payload(d);
+                a.feat(d + 1, f);
+                b.feat(d + 1, f);
+            }
+            Tree::Node { left, items, .. } => {
+                f.struct_variant = true;
+                f.payload(d);
+                left.feat(d + 1, f);
+                items.feat(d + 1, f);
+            }
+            Tree::Map(m) => {
+                f.newtype_variant = true;
+                f.payload(d);
+                m.feat(d + 1, f)
+            }
+            Tree::Hash(m) => {
+                f.newtype_variant = true;
+                f.payload(d);
+                m.feat(d + 1, f)
+            }
+            Tree::Opt(o) => {
+                f.newtype_variant = true;
+                f.payload(d);
+                o.feat(d + 1, f)
+            }
+            Tree::Tup(t) => {
+                f.newtype_variant = true;
+                f.payload(d);
+                t.feat(d + 1, f)
+            }
+            Tree::Ts(t) => {
+                f.newtype_variant = true;
+                f.payload(d);
+                t.feat(d + 1, f)
+            }
+        }
+    }
+}
+
+// ---- non-default serde representations and std types (stream `attrs`) -------------------------------------
+// Values are generated so that the representation itself is unambiguous (an untagged integer is `U` only
+// above i64::MAX, flattened extra keys cannot collide with field names): what is left is the converter's job.
+
+#[derive(Serialize, Deserialize, PartialEq, Eq, PartialOrd, Ord, Debug, Clone, Copy)]
+enum KeyE {
+    Alpha,
+    #[serde(rename = "be ta")]
+    Beta,
+    Gamma,
+}
+impl Arb for KeyE {
+    fn arb(s: &mut dyn Src, _z: usize) -> Self {
+        *pick(s, &[KeyE::Alpha, KeyE::Beta, KeyE::Gamma])
+    }
+    fn feat(&self, d: usize, f: &mut Feat) {
+        f.at(d);
+        f.unit_variant = true;
+    }
+}
+#[derive(Serialize, Deserialize, PartialEq, Debug)]
+struct Leaf {
+    q: u64,
+    x: F64,
+    #[serde(skip_serializing_if = "Option::is_none", default)]
+    o: Option<String>,
+    #[serde(default)]
+    d: i32,
+}
+impl Arb for Leaf {
+    fn arb(s: &mut dyn Src, z: usize) -> Self {
+        Leaf { q: Arb::arb(s, z), x: Arb::arb(s, z), o: Arb::arb(s, z), d: Arb::arb(s, z) }
+    }
+    fn feat(&self, d: usize, f: &mut Feat) {
+        f.at(d);
+        self.q.feat(d + 1, f);
+        self.x.feat(d + 1, f);
+        self.o.feat(d + 1, f);
+    }
+}
+#[derive(Serialize, Deserialize, PartialEq, Debug)]
+#[serde(tag = "kind")]
+enum Internal {
+    Empty,
+    Point { x: i32, y: Option<String> },
+    Wrapped(Leaf),
+}
+#[derive(Serialize, Deserialize, PartialEq, Debug)]
+#[serde(tag = "t", content = "c")]
+enum Adjacent {
+    Unit,
+    New(Vec<i8>),
+    Tup(i64, String),
+    Rec { leaf: Leaf },
+}
+#[derive(Serialize, Deserialize, PartialEq, Debug)]
+#[serde(untagged)]
+enum Untagged {
+    I(i64),
+    U(u64),
+    F(F64),
+    S(String),
+    L(Vec<Untagged>),
+    R { flag: bool },
+    M(BTreeMap<String, Untagged>),
+}
+fn arb_untagged(s: &mut dyn Src, z: usize) -> Untagged {
+    match s.choose(if z == 0 { 5 } else { 7 }) {
+        0 => Untagged::I(Arb::arb(s, z)),
+        1 => Untagged::U(i64::MAX as u64 + 1 + (s.u64() >> 1)),
+        2 => Untagged::F(Arb::arb(s, z)),
+        3 => Untagged::S(Arb::arb(s, z)),
+        4 => Untagged::R { flag: s.bool() },
+        5 => Untagged::L((0..s.choose(3)).map(|_| arb_untagged(s, z - 1)).collect()),
+        // a map that does not look like `R`
+        _ => Untagged::M((0..s.choose(3)).map(|i| (format!("k{}{}", i, gen_name(s, 2)), arb_untagged(s, z - 1))).collect()),
+    }
+}
+#[derive(Serialize, Deserialize, PartialEq, Debug)]
+struct Flat {
+    id: u8,
+    #[serde(flatten)]
+    leaf: Leaf,
+    #[serde(flatten)]
+    rest: BTreeMap<String, i64>,
+}
+/// one value of every representation, plus std types with their own Serialize impls
+#[derive(Serialize, Deserialize, PartialEq, Debug)]
+struct Attrs {
+    internal: Vec<Internal>,
+    adjacent: Vec<Adjacent>,
+    untagged: Untagged,
+    flat: Flat,
+    by_enum_key: BTreeMap<KeyE, Option<Adjacent>>,
+    result: Result<Leaf, String>,
+    bound: std::ops::Bound<i16>,
+    span: std::ops::Range<u32>,
+    elapsed: std::time::Duration,
+    set: std::collections::BTreeSet<String>,
+}
+fn arb_internal(s: &mut dyn Src, z: usize) -> Internal {
+    match s.choose(3) {
+        0 => Internal::Empty,
+        1 => Internal::Point { x: Arb::arb(s, z), y: Arb::arb(s, z) },
+        _ => Internal::Wrapped(Arb::arb(s, z)),
+    }
+}
+fn arb_adjacent(s: &mut dyn Src, z: usize) -> Adjacent {
+    match s.choose(4) {
+        0 => Adjacent::Unit,
+        1 => Adjacent::New(Arb::arb(s, 3)),
+        2 => Adjacent::Tup(Arb::arb(s, z), Arb::arb(s, z)),
+        _ => Adjacent::Rec { leaf: Arb::arb(s, z) },
+    }
+}
+impl Arb for Attrs {
+    fn arb(s: &mut dyn Src, z: usize) -> Self {
+        Attrs {
+            internal: (0..s.choose(3)).map(|_| arb_internal(s, z)).collect(),
+            adjacent: (0..s.choose(3)).map(|_| arb_adjacent(s, z)).collect(),
+            untagged: arb_untagged(s, 2),
+            flat: Flat {
+                id: Arb::arb(s, z),
+                leaf: Arb::arb(s, z),
+                rest: (0..s.choose(3)).map(|i| (format!("extra_{}{}", i, gen_name(s, 2)), gen_i64(s))).collect(),
+            },
+            by_enum_key: (0..s.choose(3)).map(|_| (KeyE::arb(s, z), if s.bool() { Some(arb_adjacent(s, z)) } else { None })).collect(),
+            result: if s.bool() { Ok(Arb::arb(s, z)) } else { Err(Arb::arb(s, z)) },
+            bound: match s.choose(3) {
+                0 => std::ops::Bound::Unbounded,
+                1 => std::ops::Bound::Included(Arb::arb(s, z)),
+                _ => std::ops::Bound::Excluded(Arb::arb(s, z)),
+            },
+            span: Arb::arb(s, z)..Arb::arb(s, z),
+            elapsed: std::time::Duration::new(s.u64() >> s.choose(64), s.choose(1_000_000_000) as u32),
+            set: (0..s.choose(3)).map(|_| gen_string(s, 3)).collect(),
+        }
+    }
+    fn feat(&self, d: usize, f: &mut Feat) {
+        f.at(d + 3);
+        f.map = true;
+        f.payload(d + 2);
+        f.newtype_variant |= self.internal.iter().any(|x| matches!(x, Internal::Wrapped(_))) || matches!(self.result, Ok(_) | Err(_));
+        f.struct_variant |= self.internal.iter().any(|x| matches!(x, Internal::Point { .. }));
+        f.tuple_variant |= self.adjacent.iter().any(|x| matches!(x, Adjacent::Tup(..)));
+        f.unit_variant |= self.internal.iter().any(|x| matches!(x, Internal::Empty));
+        self.flat.leaf.feat(d + 1, f);
+    }
+}
+
+// ---- concrete top-level instantiations (nesting depth 4 through the generic parameters) ----------------
+
+type T1 = Rec<En<Vec<Option<Ints>>, BTreeMap<String, TupS<Prims, Scalar>>>, NewT<(F64, String, Option<Bytes>)>>;
+type T2 = En<Rec<Option<Box<Scalar>>, HMap<En<u8, String>>>, Vec<(En<bool, F32>, Option<NewT<i64>>)>>;
+type T3 = BTreeMap<String, En<NewT<Vec<Scalar>>, Option<Rec<u64, [i16; 2]>>>>;
+type T4 = Vec<TupS<Option<En<String, Ints>>, HMap<Option<Vec<Scalar>>>>>;
+type T5 = (Option<Prims>, En<(), UnitS>, (En<Bytes, Bytes>,), Vec<Vec<Option<En<i8, u64>>>>);
+type T6 = Option<En<BTreeMap<String, Vec<En<F64, F32>>>, NewT<NewT<Option<String>>>>>;
+type T7 = NewT<TupS<En<En<En<Scalar, u32>, bool>, Ints>, Box<Rec<Vec<String>, Option<HMap<isize>>>>>>;
+
+fn round_trip<T: Arb + Serialize + DeserializeOwned + PartialEq + Debug>(s: &mut dyn Src, name: &str, size: usize) -> Case {
+    let v = T::arb(s, size);
+    let mut f = Feat::default();
+    v.feat(0, &mut f);
+    let text = format!("{} = {:?}", name, v);
+    let gv: ConstValue = match to_value(&v) {
+        Ok(g) => g,
+        Err(e) => return Case::fail(text, format!("to_value failed: {}", e)),
+    };
+    let c = match from_value::<T>(gv.clone()) {
+        Err(e) if f.empty_tuple_variant && F1_OPEN.load(Ordering::Relaxed) && e.to_string() == F1_MESSAGE => Case::known(text, vec![F1.into()]),
+        Err(e) => Case::fail(text, format!("from_value failed: {} (graphql value: {})", e, gv)),
+        Ok(back) => {
+            if back == v {
+                Case::pass(text)
+            } else {
+                Case::fail(text, format!("round trip returned {:?} (graphql value: {})", back, gv))
+            }
+        }
+    };
+    c.nontrivial(f.payload_or_map_depth.map_or(false, |d| d >= 2))
+        .class(name.to_string())
+        .class_if(f.max_depth >= 4, "depth>=4")
+        .class_if(f.unit_variant, "unit-variant")
+        .class_if(f.newtype_variant, "newtype-variant")
+        .class_if(f.tuple_variant, "tuple-variant")
+        .class_if(f.struct_variant, "struct-variant")
+        .class_if(f.map, "map")
+        .class_if(f.some, "option-some")
+        .class_if(f.none, "option-none")
+        .class_if(f.bytes, "bytes")
+        .class_if(f.float, "float")
+        .class_if(f.neg_zero, "negative-zero")
+        .class_if(f.big_u64, "u64>i64::MAX")
+        .class_if(f.empty_seq, "empty-seq")
+        .class_if(f.unit, "unit")
+        .class_if(f.empty_tuple_variant, "empty-tuple-variant")
+}
+
+pub fn run(ctx: &mut Ctx) {
+    ctx.rule = "values of 7 fixed generic instantiations (nesting depth 4) and of one Box-recursive type, built from one serde type per \
+                data-model shape (unit/newtype/tuple/named struct, unit/newtype/tuple/struct variants, Option, BTreeMap/HashMap<String,_>, Vec, \
+                arrays and tuples, i8..i64/u8..u64/isize/usize, finite f32/f64, bool, String, bytes::Bytes, (), unit struct); \
+                non-trivial = the value contains an enum variant with payload or a map at nesting depth >= 2; distinct by rendered value"
+        .into();
+    ctx.assume("floats are finite (non-finite floats serialise to null: outside the stated domain); floats are compared by bit pattern, so -0.0 must come back as -0.0");
+    ctx.assume("char is outside the domain (value/src/serializer.rs rejects it with the message 'char is not supported.'); 128-bit integers are outside the domain");
+    ctx.assume("Option<T> is only instantiated with T that never serialises to null (no Option<Option<_>>, Option<()>, Option<unit struct>): null collapses by construction");
+    ctx.assume("map keys are Strings (arbitrary text, not only GraphQL names); HashMap uses a fixed hasher so that renderings are reproducible");
+    ctx.assume("streams t1..t7 and tree use serde's default (externally tagged) representation with `rename` / `transparent` only; stream `attrs` adds internally tagged, adjacently tagged and untagged enums, `flatten`, `default` + `skip_serializing_if`, unit-variant enums as map keys (they serialise as strings) and std types (Result, Bound, Range, Duration, BTreeSet), with values chosen so that the representation itself is unambiguous");
+    let f1_open = ctx.open(F1);
+    F1_OPEN.store(f1_open, Ordering::Relaxed);
+    // C16-F1 (tuple variant without fields): excluded from the main streams while open, probed separately
+    ALLOW_EMPTY_TUPLE_VARIANT.store(!f1_open, Ordering::Relaxed);
+    let n = ctx.tier.pick(120_000, 3_000_000);
+
+    // explicit witnesses: one value per variant form at depth >= 2 and the numeric extremes
+    {
+        let fixed: Vec<Vec<u32>> = vec![vec![], vec![u32::MAX; 48], vec![0x8000_0000; 48], (0..48).map(|i| i * 0x0517_cc1b).collect()];
+        for (i, ch) in fixed.iter().enumerate() {
+            let mut s = vcore::src::VecSrc::new(ch);
+            let c = round_trip::<T1>(&mut s, "T1", 4);
+            if ctx.check_case("witness", c, serde_json::json!({"vector": i})) {
+                return;
+            }
+            let mut s = vcore::src::VecSrc::new(ch);
+            let c = round_trip::<Tree>(&mut s, "Tree", 4);
+            if ctx.check_case("witness", c, serde_json::json!({"vector": i})) {
+                return;
+            }
+        }
+    }
+
+    ctx.stream("t1", n, 160, |s| round_trip::<T1>(s, "T1", 4));
+    ctx.stream("t2", n, 160, |s| round_trip::<T2>(s, "T2", 4));
+    ctx.stream("t3", n, 160, |s| round_trip::<T3>(s, "T3", 4));
+    ctx.stream("t4", n, 160, |s| round_trip::<T4>(s, "T4", 4));
+    ctx.stream("t5", n, 160, |s| round_trip::<T5>(s, "T5", 4));
+    ctx.stream("t6", n, 160, |s| round_trip::<T6>(s, "T6", 4));
+    ctx.stream("t7", n, 160, |s| round_trip::<T7>(s, "T7", 4));
+    ctx.stream("tree", n, 200, |s| round_trip::<Tree>(s, "Tree", 4));
+    ctx.stream("attrs", n / 2, 200, |s| round_trip::<Attrs>(s, "Attrs", 4));
+    if f1_open {
+        ctx.excluded(F1);
+    }
+    if ctx.violations() > 0 {
+        return;
+    }
+
+    // probe of C16-F1: the smallest witness, then the family with the construct enabled
+    ALLOW_EMPTY_TUPLE_VARIANT.store(true, Ordering::Relaxed);
+    {
+        let mut s = vcore::src::VecSrc::new(&[u32::MAX]);
+        let c = round_trip::<En<u8, u8>>(&mut s, "En<u8,u8>", 1);
+        if ctx.check_case("probe-empty-tuple-variant", c, serde_json::json!({"witness": "En::<u8,u8>::E()"})) {
+            return;
+        }
+    }
+    ctx.stream("probe-empty-tuple-variant", n / 10, 160, |s| round_trip::<T2>(s, "T2", 4));
+
+    ctx.floor("newtype-variant", 2_000);
+    ctx.floor("tuple-variant", 2_000);
+    ctx.floor("struct-variant", 2_000);
+    ctx.floor("unit-variant", 2_000);
+    ctx.floor("map", 2_000);
+    ctx.floor("option-some", 2_000);
+    ctx.floor("option-none", 2_000);
+    ctx.floor("bytes", 1_000);
+    ctx.floor("float", 1_000);
+    ctx.floor("negative-zero", 100);
+    ctx.floor("u64>i64::MAX", 500);
+    ctx.floor("depth>=4", 1_000);
+    ctx.floor("empty-tuple-variant", 500);
 }
